@@ -513,3 +513,26 @@ def written_values(key, value, n):
 
 def setitem_kind_state(dtype, values):
     return ladder_state(dtype.kind, values, len(values))
+
+
+# ------------------------------------------------------------------ C02 tables
+from serif.table import Table  # noqa: E402
+
+
+def col_view_equal(c, v):
+    """Column c shows exactly what vector v shows (values, dtype, name)."""
+    return tuple(c._underlying) == tuple(v._underlying) and c._dtype == v._dtype and c._name == v._name
+
+
+def rect(t):
+    """Every column has the table's length (zero columns: zero rows)."""
+    if len(t._underlying) == 0:
+        return t._length == 0
+    return all(len(c._underlying) == t._length for c in t._underlying)
+
+
+def same_cells(t, columns):
+    """Table t consists of fresh copies of `columns`, in order."""
+    if len(t._underlying) != len(columns):
+        return False
+    return all(col_view_equal(c, v) and c is not v for c, v in zip(t._underlying, columns))
